@@ -315,6 +315,18 @@ func (c19) Generate(r *core.Rng, run int, tier string) *core.History {
 				fmt.Sprintf("for la9 = 1 { for lb9 = 1 { for lc9 = 1 { for ld9 = 1 { for le9 = 1 { for lf9 = 1 { for lg9 = 1 { for lh9 = 1 { for KL = %d:%d { } } } } } } } } }", v, v+3),
 				"KL++", "KL = KL + 1", fmt.Sprintf("for KL = [%d, %d] { }", v, v+1), "(() => { KL = 77 })()", "for 2 { KL += 1 }",
 			})
+			if r.Bool(.4) {
+				// the constant outlives the call: closures made in the function attack it later, called from the top level
+				// (the reader gets an argument no other event uses: a memoized closure of equal text made by an earlier
+				// call is the recorded C04 finding, not a changed constant)
+				esc := core.Pick(r, []string{
+					fmt.Sprintf("pk9[1](%d)", v+50), "pk9[2]()", fmt.Sprintf("pk9[3](%d)", v), fmt.Sprintf("pk9[1](%d); pk9[2]()", v+7),
+					fmt.Sprintf("(() => pk9[1](%d))()", v+9), fmt.Sprintf("for 2 { pk9[1](%d) }", v+3),
+				})
+				h.Events = append(h.Events, core.Event{Ev: "local", Tag: "local-escape", N: v,
+					Text: fmt.Sprintf("func lk9() { KL = %d; [n => KL + n, x => { KL = x }, () => { KL++ }, x => { for KL = x:x+2 { } }] }\npk9 = lk9()\ncatch(%s)\npk9[0](%d) - %d", v, esc, (i+1)*1000, (i+1)*1000)})
+				continue
+			}
 			h.Events = append(h.Events, core.Event{Ev: "local", Tag: "local", N: v,
 				Text: fmt.Sprintf("func lk9() { KL = %d; catch((() => { %s })()); KL }\nlk9()", v, attack)})
 			continue
@@ -357,7 +369,7 @@ func (c c19) Execute(h *core.History) *core.Outcome {
 	var firstKnown *core.Violation
 	for i := range h.Events {
 		e := &h.Events[i]
-		if e.Ev == "local" && !(strings.HasPrefix(e.Text, "func lk9() { KL = "+fmt.Sprint(e.N)+";") && strings.HasSuffix(e.Text, "KL }\nlk9()")) {
+		if e.Ev == "local" && !(strings.HasPrefix(e.Text, "func lk9() { KL = "+fmt.Sprint(e.N)+";") && (strings.HasSuffix(e.Text, "KL }\nlk9()") || (e.Tag == "local-escape" && strings.Contains(e.Text, ")\npk9[0](")))) {
 			continue // (after shrinking) not the recorded shape any more
 		}
 		if _, isBound := bound[e.Name]; e.Ev == "attempt" && !isBound {
